@@ -323,23 +323,36 @@ func labelA(pre StA, a string, g map[string]interface{}, ok bool) EvA {
 }
 
 type aRunner struct {
-	lg  *sim.Log
-	run string
+	lg       *sim.Log
+	run      string
+	rootArgs map[string]interface{}
 }
 
 func (r *aRunner) Root(w *AWorld, profile string) (int, StA) {
+	chunker.NewRoot(r.lg)
 	st := w.Project()
 	st.Root = len(r.lg.Nodes) + 1
-	id := r.lg.Add(0, r.run, "Init", map[string]interface{}{"profile": profile}, map[string]interface{}{"ok": true, "code": "", "panic": false, "err": ""}, st)
+	r.rootArgs = map[string]interface{}{"profile": profile}
+	id := r.lg.Add(0, r.run, "Init", r.rootArgs, okRes, st)
 	return id, st
 }
 
 func (r *aRunner) Step(w *AWorld, parent, root int, pre StA, a string, g map[string]interface{}) (int, StA) {
 	res := w.Do(a, g)
 	st := w.Project()
+	p := chunker.Parent(r.lg, parent, func(id int) {
+		cp := pre
+		cp.Root, cp.Ev = id, EvA{}
+		r.lg.Add(0, r.run, "Resume", r.rootArgs, okRes, cp)
+	})
+	if p != parent {
+		root = p
+	} else {
+		root = pre.Root
+	}
 	st.Root = root
 	st.Ev = labelA(pre, a, g, res.OK)
-	return r.lg.Add(parent, r.run, a, g, resOf(res), st), st
+	return r.lg.Add(p, r.run, a, g, resOf(res), st), st
 }
 
 // WalkA executes every transition of the MC_AssetAdmin graphs once on the real module.
